@@ -1,6 +1,6 @@
 (** Property C19 — the theorems the check counts as obligations.  Nothing but
     statements closed by [exact] and [Print Assumptions]. *)
-From HS Require Import Base.Prelude C19.Model C19.MQ C19.MQOrder C19.TopicModel C19.Topic C19.StreamModel C19.Assign C19.Stream C19.OutboxModel C19.Outbox.
+From HS Require Import Base.Prelude C19.Model C19.MQ C19.MQOrder C19.TopicModel C19.Topic C19.StreamModel C19.Assign C19.Stream C19.OutboxModel C19.Outbox C19.DlqModel C19.Dlq.
 From Coq Require Import Sorting.Sorted.
 Local Open Scope Z_scope.
 
@@ -215,3 +215,34 @@ Theorem c19_outbox_poll_completes : forall cfg s h rest d ops now,
   end.
 Proof. exact outbox_poll_completes. Qed.
 Print Assumptions c19_outbox_poll_completes.
+
+(* ---------------- DeadLetterQueue driven directly (capacity AND retention period) ---------------- *)
+
+(** What a dead-lettered message can be lost to: one [add_message] removes exactly a prefix of
+    messages that have outlived the retention period, and then AT MOST ONE more — the oldest
+    survivor, and only if the survivors already fill the capacity (the sweep stopped at a message
+    still within its retention period).  So a message within its retention period is never dropped
+    while the DLQ has room.  Every DLQ state, capacity, retention period, instant. *)
+Theorem c19_dlq_add_loses_only_expired_or_when_full : forall d now m,
+  exists j,
+    Forall (fun mt => match d_ret d with Some r => now - snd mt > r | None => False end) (firstn j (d_msgs d))
+    /\ ((dl_full (d_cap d) (skipn j (d_msgs d)) = false /\ d_msgs (dl_add d now m) = skipn j (d_msgs d) ++ [(m, now)])
+        \/ (skipn j (d_msgs d) = [] /\ d_msgs (dl_add d now m) = [(m, now)])
+        \/ (dl_full (d_cap d) (skipn j (d_msgs d)) = true /\ d_msgs (dl_add d now m) = skipn (S j) (d_msgs d) ++ [(m, now)]))
+    /\ match skipn j (d_msgs d), d_ret d with (_, t) :: _, Some r => now - t <= r | _, _ => True end.
+Proof. exact dlq_add_loses_only_expired_or_when_full. Qed.
+Print Assumptions c19_dlq_add_loses_only_expired_or_when_full.
+
+(** A DLQ with capacity c >= 1 never holds more than c messages (every sequence of add / pop / clear). *)
+Theorem c19_dlq_capacity : forall ops c ret, 1 <= c ->
+  dl_zlen (d_msgs (dl_run (MkDlq (Some c) ret [] 0 0) ops)) <= c.
+Proof. exact dlq_capacity. Qed.
+Print Assumptions c19_dlq_capacity.
+
+(** Every dead-lettered message stays accounted for: received = held + discarded (expired, pushed
+    out or cleared) + taken out by pop, after every sequence of operations. *)
+Theorem c19_dlq_accounting : forall ops d,
+  d_recv d = dl_zlen (d_msgs d) + d_disc d ->
+  let d' := dl_run d ops in d_recv d' = dl_zlen (d_msgs d') + d_disc d' + dl_taken d ops.
+Proof. exact dlq_accounting. Qed.
+Print Assumptions c19_dlq_accounting.
